@@ -268,7 +268,58 @@ def run_callers(tier) -> JobResult:
                     if got != (la, lb, lc, 0x77):
                         res.violations.append(Violation("caller:array-size", f"caller:array-size|compiled={compiled}", {"n": n, "m": m, "compiled": compiled},
                                                         f"struct R with n={n} m={m} (compiled={compiled}): got {got}, expected {(la, lb, lc, 0x77)}"))
-    res.samples.append({"defines": expect_consts, "enum": expect_enum})
+    # every literal form as a constant array dimension, a #define value and an enum value: the callers hand the text to the evaluator unchanged
+    lits = {"010": 8, "0017": 15, "0x10": 16, "0X1f": 31, "0b101": 5, "12": 12, "07": 7, "010u": 8, "0x10UL": 16, "12ull": 12, "1": 1, "0": 0, "00": 0, "(010)": 8, "010 + 0": 8, "2 * 010": 16}
+    for lit, val in lits.items():
+        for compiled in (False, True):
+            cs = cstruct()
+            res.evaluations += 1
+            res.states += 1
+            res.transitions += 1
+            res.nontrivial += 1
+            case = {"literal": lit, "compiled": compiled}
+            try:
+                cs.load(f"#define LIT {lit}\nenum LE : uint16 {{ LA = {lit}, LB }};\nstruct L {{ uint8 a[{lit}]; uint8 g[2][{lit}]; uint8 t; }};\ntypedef uint16 vec[{lit}];", compiled=compiled)
+                got = (cs.consts.get("LIT"), cs.LE.LA.value, cs.LE.LB.value, len(cs.L), cs.L.fields["a"].type.num_entries, len(cs.vec))
+            except Exception as e:  # noqa: BLE001
+                got = ("exc", impl.exc_sig(e))
+            exp = (val, val, val + 1, 3 * val + 1, val, 2 * val)
+            if got != exp:
+                res.violations.append(Violation("caller:literal", f"caller:literal|{lit}", case, f"literal {lit!r} as #define / enum value / array dimensions / typedef dimension: got {got}, C gives {exp}"))
+    # sizeof of a name that means different types in different cstruct objects, or is re-bound in one (no result may be remembered by name)
+    for order in ((0, 1), (1, 0)):
+        objs = []
+        for i in (0, 1):
+            c = cstruct()
+            c.load("struct hdr { uint32 a; uint32 b; };" if i == 0 else "struct hdr { uint8 a; };")
+            c.load("struct U { uint8 n; uint8 pad[sizeof(hdr) * 2 + n]; uint8 t; };\n#define HS sizeof(hdr) + 1")
+            objs.append(c)
+        for i in order:
+            c = objs[i]
+            sz = 8 if i == 0 else 1
+            res.evaluations += 1
+            res.states += 1
+            res.nontrivial += 1
+            try:
+                v = c.U(bytes([1]) + bytes(2 * sz + 1) + b"\x77")
+                got = (len(v.pad), int(v.t), c.consts["HS"])
+            except Exception as e:  # noqa: BLE001
+                got = ("exc", impl.exc_sig(e))
+            if got != (2 * sz + 1, 0x77, sz + 1):
+                res.violations.append(Violation("caller:sizeof", "caller:sizeof|two-objects", {"sizeof": "two-objects", "order": list(order), "object": i},
+                                                f"two cstruct objects define 'hdr' with sizes 8 and 1 (evaluated in order {order}): object {i} gives {got}, expected {(2 * sz + 1, 0x77, sz + 1)}"))
+    c = cstruct()
+    c.load("struct hdr { uint32 a; uint32 b; };\nstruct U { uint8 n; uint8 pad[sizeof(hdr) + n]; uint8 t; };")
+    try:
+        first = len(c.U(bytes([1]) + bytes(9) + b"\x77").pad)
+        c.add_type("hdr", c.uint16, replace=True)
+        second = len(c.U(bytes([1]) + bytes(3) + b"\x77").pad)
+        res.evaluations += 1
+        if (first, second) != (9, 3):
+            res.violations.append(Violation("caller:sizeof", "caller:sizeof|rebound", {"sizeof": "rebound"}, f"sizeof(hdr) + n with n = 1: {first} elements, after re-binding hdr to uint16: {second} (expected 9 and 3)"))
+    except Exception as e:  # noqa: BLE001
+        res.violations.append(Violation("caller:sizeof", "caller:sizeof|rebound", {"sizeof": "rebound"}, f"{impl.exc_sig(e)} {e!r}"))
+    res.samples.append({"defines": expect_consts, "enum": expect_enum, "literals": list(lits)})
     return res
 
 
